@@ -492,6 +492,13 @@ def getitem(it, obj, idx):
     f = getattr(obj, "py_getitem", None)
     if f is not None:
         return f(it, idx)
+    if type(obj) is Instance and getattr(obj.cls, "is_namedtuple", False) and not is_sym(idx):
+        from .values import all_dc_fields
+        vals = [obj.attrs.get(f[0]) for f in all_dc_fields(obj.cls)]
+        try:
+            return vals[idx] if not isinstance(idx, slice) else tuple(vals[idx])
+        except IndexError:
+            raise it.exc("IndexError", "tuple index out of range")
     if isinstance(obj, Instance):
         m = obj.cls.lookup("__getitem__")
         if m is not MISSING:
